@@ -178,6 +178,14 @@ void cmb_resourcepool_terminate(struct cmb_resourcepool *rpp)
 {
     cmb_assert_release(rpp != NULL);
 
+    /* Whoever still holds units must forget the pool, or it will try to give
+     * them back to a pool that is gone when it ends (see cmb_resource_terminate) */
+    struct cmi_hashheap *hhp = &(rpp->holders);
+    while ((hhp->heap != NULL) && !cmi_hashheap_is_empty(hhp)) {
+        const struct pool_item *pi = (struct pool_item *)cmi_hashheap_dequeue(hhp);
+        (void)cmi_process_remove_holdable(pi->holder, &(rpp->core));
+    }
+
     cmb_timeseries_terminate(&(rpp->history));
     cmi_hashheap_terminate(&(rpp->holders));
     cmb_resourceguard_terminate(&(rpp->guard));
